@@ -175,7 +175,7 @@ int main(int argc, char ** argv) {
             for (i2 = 0; i2 < k; i2++) st[i2] = 0;
             for (;;) {
                 if (MC_CASE()) {
-                    char texts[8][24]; int tl[8], head = 0, tail = 0, n;
+                    char texts[8][24]; int tl[8], codes[8], head = 0, tail = 0, n;
                     mc_case_tag = "history"; mc_case_i[0] = hs; mc_case_i[1] = k; for (i2 = 0; i2 < k && i2 < 4; i2++) mc_case_i[2 + i2] = st[i2];
                     tc_reinit(&T, cmds);
 #if !USE_MEMORY_ALLOCATION_FREE
@@ -184,8 +184,14 @@ int main(int argc, char ** argv) {
                     for (n = 0; n < k; n++) {
                         if (st[n] < 5) {
                             int l = plen[st[n]], j;
-                            if (tail - head >= 4) continue;          /* queue capacity 4: no overflow here */
-                            for (j = 0; j < l; j++) texts[tail & 7][j] = (char) ('A' + (tail % 20)); texts[tail & 7][1] = '"'; texts[tail & 7][l] = 0; tl[tail & 7] = l;
+                            if (tail - head >= 4) {             /* queue (capacity 4) full: the newest entry becomes -350 without text */
+                                char tmp[24];
+                                for (j = 0; j < l; j++) tmp[j] = 'z'; tmp[l] = 0;
+                                SCPI_ErrorPushEx(&T.ctx, -222, tmp, (size_t) l);
+                                codes[(tail - 1) & 7] = -350; tl[(tail - 1) & 7] = -1;
+                                continue;
+                            }
+                            for (j = 0; j < l; j++) texts[tail & 7][j] = (char) ('A' + (tail % 20)); texts[tail & 7][1] = '"'; texts[tail & 7][l] = 0; tl[tail & 7] = l; codes[tail & 7] = -222;
                             SCPI_ErrorPushEx(&T.ctx, -222, texts[tail & 7], (size_t) l);
                             tail++;
                         } else {
@@ -195,10 +201,13 @@ int main(int argc, char ** argv) {
                             n_cases++;
                             if (head == tail) why = check_response(0, "", 0, 0);
                             else {
-                                why = check_response(-222, texts[head & 7], (size_t) tl[head & 7], 1);
+                                if (tl[head & 7] < 0) why = check_response(codes[head & 7], "", 0, 0);
+                                else {
+                                    why = check_response(codes[head & 7], texts[head & 7], (size_t) tl[head & 7], 1);
 #if !USE_MEMORY_ALLOCATION_FREE
-                                if (why) { if (!check_response(-222, "", 0, 0)) why = NULL; }       /* heap full at push time: no text */
+                                    if (why) { if (!check_response(codes[head & 7], "", 0, 0)) why = NULL; }       /* heap full at push time: no text */
 #endif
+                                }
                                 head++;
                             }
                             if (why) { char sig[96]; snprintf(sig, sizeof sig, "c18/history/%s", why); mc_viol(sig, "heap variant %d, operation %d of history: response [%s]", hs, n, mc_e(OUT, OUTN)); break; }
